@@ -414,6 +414,40 @@ func judgeRelaxed(st *pstate, lits, coeffs ssa.Value, viol map[string]bool) {
 	case 2:
 		e, ok := appendedInt(coeffs)
 		if !ok {
+			// the coefficients made one longer than the literals of the constraint, the extra slot written directly:
+			// `coeffs = make([]int, len(constr.Lits)+1); ...; coeffs[len(constr.Lits)] = constr.AtLeast`
+			if mk, isMk := st.resolve(coeffs).(*ssa.MakeSlice); isMk {
+				if bo, isB := mk.Len.(*ssa.BinOp); isB && bo.Op == token.ADD {
+					if k, isK := constInt(bo.Y); isK && k == 1 {
+						sameLen := func(a, b ssa.Value) bool {
+							if a == b {
+								return true
+							}
+							ca, okA := a.(*ssa.Call)
+							cb, okB := b.(*ssa.Call)
+							if !okA || !okB || len(ca.Call.Args) != 1 || len(cb.Call.Args) != 1 {
+								return false
+							}
+							ba, isBA := ca.Call.Value.(*ssa.Builtin)
+							bb, isBB := cb.Call.Value.(*ssa.Builtin)
+							return isBA && isBB && ba.Name() == "len" && bb.Name() == "len" && sameLoad(ca.Call.Args[0], cb.Call.Args[0])
+						}
+						for _, ref := range *mk.Referrers() {
+							ia, isIA := ref.(*ssa.IndexAddr)
+							if !isIA || !sameLen(ia.Index, bo.X) {
+								continue
+							}
+							for _, r2 := range *ia.Referrers() {
+								if stx, isSt := r2.(*ssa.Store); isSt && stx.Addr == ssa.Value(ia) {
+									e, ok = stx.Val, true
+								}
+							}
+						}
+					}
+				}
+			}
+		}
+		if !ok {
 			viol["soft path with explicit coefficients but none appended for the blocking literal"] = true
 		} else if !isAtLeast(e) {
 			viol["the coefficient appended for the blocking literal is not the constraint's AtLeast"] = true
@@ -432,60 +466,77 @@ func ruleR4_3(w *World, r *Report) {
 		return
 	}
 	n := 0
-	allInstrs(fn, func(ins ssa.Instruction) {
-		mu, ok := ins.(*ssa.MapUpdate)
-		if !ok {
-			return
+	// the projection may live in a helper of Solve that is handed the names (`namedModel(pb.varInts, model)`)
+	scan := []*ssa.Function{fn}
+	namesParam := map[ssa.Value]bool{}
+	for _, ci := range callsIn(fn) {
+		h := ci.Common().StaticCallee()
+		if h == nil || w.PkgName(h) != "maxsat" || len(h.Blocks) == 0 {
+			continue
 		}
-		n++
-		key := fmt.Sprintf("(*maxsat.Problem).Solve model insertion #%d", n)
-		var bad []string
-		// key = load varInts[i]
-		var idx ssa.Value
-		if u, ok := mu.Key.(*ssa.UnOp); ok && u.Op == token.MUL {
-			if ia, ok := u.X.(*ssa.IndexAddr); ok {
-				if _, ok := isFieldLoad(ia.X, "maxsat.Problem", "varInts"); ok {
-					idx = ia.Index
+		for ai, a := range ci.Common().Args {
+			if _, ok := isFieldLoad(a, "maxsat.Problem", "varInts"); ok && ai < len(h.Params) {
+				namesParam[h.Params[ai]] = true
+				scan = append(scan, h)
+			}
+		}
+	}
+	for _, sf := range scan {
+		allInstrs(sf, func(ins ssa.Instruction) {
+			mu, ok := ins.(*ssa.MapUpdate)
+			if !ok {
+				return
+			}
+			n++
+			key := fmt.Sprintf("(*maxsat.Problem).Solve model insertion #%d", n)
+			var bad []string
+			// key = load varInts[i]
+			var idx ssa.Value
+			if u, ok := mu.Key.(*ssa.UnOp); ok && u.Op == token.MUL {
+				if ia, ok := u.X.(*ssa.IndexAddr); ok {
+					if _, ok := isFieldLoad(ia.X, "maxsat.Problem", "varInts"); ok || namesParam[ia.X] {
+						idx = ia.Index
+					}
 				}
 			}
-		}
-		if idx == nil {
-			bad = append(bad, "the key is not the name stored for a variable index")
-		}
-		// value = load model[i] with the same index
-		if u, ok := mu.Value.(*ssa.UnOp); ok && u.Op == token.MUL {
-			if ia, ok := u.X.(*ssa.IndexAddr); !ok || (idx != nil && ia.Index != idx) {
-				bad = append(bad, "the binding inserted is not the one at the same index as the name")
+			if idx == nil {
+				bad = append(bad, "the key is not the name stored for a variable index")
 			}
-		} else {
-			bad = append(bad, "the value inserted is not an element of the solver's model")
-		}
-		guarded := false
-		for _, ec := range dominatingConds(mu.Block()) {
-			bo, ok := ec.Cond.(*ssa.BinOp)
-			if !ok || (bo.Op != token.EQL && bo.Op != token.NEQ) {
-				continue
+			// value = load model[i] with the same index
+			if u, ok := mu.Value.(*ssa.UnOp); ok && u.Op == token.MUL {
+				if ia, ok := u.X.(*ssa.IndexAddr); !ok || (idx != nil && ia.Index != idx) {
+					bad = append(bad, "the binding inserted is not the one at the same index as the name")
+				}
+			} else {
+				bad = append(bad, "the value inserted is not an element of the solver's model")
 			}
-			x, y := bo.X, bo.Y
-			if _, isC := x.(*ssa.Const); isC {
-				x, y = y, x
+			guarded := false
+			for _, ec := range dominatingConds(mu.Block()) {
+				bo, ok := ec.Cond.(*ssa.BinOp)
+				if !ok || (bo.Op != token.EQL && bo.Op != token.NEQ) {
+					continue
+				}
+				x, y := bo.X, bo.Y
+				if _, isC := x.(*ssa.Const); isC {
+					x, y = y, x
+				}
+				if s, ok := constString(y); !ok || s != "" || x != mu.Key {
+					continue
+				}
+				if (bo.Op == token.NEQ) == ec.True {
+					guarded = true
+				}
 			}
-			if s, ok := constString(y); !ok || s != "" || x != mu.Key {
-				continue
+			if !guarded {
+				bad = append(bad, "the insertion is not guarded by name != \"\": blocking (relaxation) variables, which have the empty name, leak into the model under the key \"\"")
 			}
-			if (bo.Op == token.NEQ) == ec.True {
-				guarded = true
+			if len(bad) > 0 {
+				r.Bad("R4.3", key, w.InstrPos(mu), strings.Join(bad, "; "))
+			} else {
+				r.OK("R4.3", key, w.InstrPos(mu), "guarded by the name of the same index being non-empty")
 			}
-		}
-		if !guarded {
-			bad = append(bad, "the insertion is not guarded by name != \"\": blocking (relaxation) variables, which have the empty name, leak into the model under the key \"\"")
-		}
-		if len(bad) > 0 {
-			r.Bad("R4.3", key, w.InstrPos(mu), strings.Join(bad, "; "))
-		} else {
-			r.OK("R4.3", key, w.InstrPos(mu), "guarded by the name of the same index being non-empty")
-		}
-	})
+		})
+	}
 	if n == 0 {
 		r.Bad("R4.3", "(*maxsat.Problem).Solve model insertion", w.Pos(fn.Pos()), "Solve never fills the model it returns")
 	}
